@@ -319,7 +319,7 @@ def check_framing(ctx, fb):
     for kind, v in seq:
         if kind == "encode_length_delimited":
             md = v
-    ptr_phi = [s for s in subterms(seq[-1][1]) if s[0] == "phi" and s[3] == "ptr"] if seq else []
+    ptr_phi = [s for s in subterms(seq[-1][1]) if s[0] == "phi"] if seq else []
     want_kinds = ["bytes", "write_u64@[T/#0, byteorder::LittleEndian]", "encode_length_delimited", "bytes", "write_u64@[T/#0, byteorder::LittleEndian]"]
     ok = [k for k, _ in seq] == want_kinds
     why = "writes %s" % [(k, sh(v, 60)) for k, v in seq]
@@ -374,17 +374,19 @@ def check_framing(ctx, fb):
         last = apps[-1][3]
         if ok and not (last[0] == "upd" and "encode_length_delimited" in last[1] and last[3][0] == v):
             ok, why = False, "bytes written in the loop are %s, not this node's encoding" % sh(last, 120)
-        ptr = carried_value(wit, b, "ptr")
-        if ok and not (ptr is not None and any(s[0] == "len" and s[1] == last for s in subterms(ptr)) and any(s[0] == "phi" and s[3] == "ptr" for s in subterms(ptr))):
+        # the running offset, by role: the loop-carried integer that grows by the length of what was just written
+        ptrs = [(ph, v) for ph, v in loop_phis(b) if isinstance(v, tuple) and any(s[0] == "len" and s[1] == last for s in subterms(v)) and ph in list(subterms(v))]
+        ptr = ptrs[0][1] if len(ptrs) == 1 else None
+        PTRPHI = ptrs[0][0] if len(ptrs) == 1 else None
+        if ok and not (ptr is not None):
             ok, why = False, "running offset becomes %s, specification ptr + encoded length" % sh(ptr, 120)
     ctx.check(ok, "R20-3", inst + " node loop", "each node of `nodes`, in order: proto::Node{Some(from(node))} length-delimited, offset advanced", why, loc(wit))
     ptr0 = None
     for e in b.trace:
         if e[0] == "loop":
             break
-    for s in subterms(carried_value(wit, b, "ptr") or ()):
-        if s[0] == "phi" and s[3] == "ptr":
-            ptr0 = s[4]
+    if PTRPHI is not None:
+        ptr0 = PTRPHI[4]
     if ptr0 is not None and mlen is not None:
         from ..symex import subst, fold_bin
         ptr0 = subst(ptr0, {("len", MAGIC): mk_const("usize", mlen)})
@@ -427,7 +429,7 @@ def check_framing(ctx, fb):
         tup = rv[4][0]
         mdv = ("unwrap", rms[0] and ("call", rms[0][1], rms[0][2]))
         nodes, ws, inp = tup[1]
-        if not (nodes[0] == "phi" and nodes[3] == "nodes"):
+        if not (nodes[0] == "phi" and isinstance(nodes[4], tuple) and nodes[4] and (nodes[4][0] == "vecnew" or (nodes[4][0] == "call" and re.search(r"Vec::<T>::(new|with_capacity)$", nodes[4][1])))):
             ok, why = False, "first component is %s, not the decoded node vector" % sh(nodes, 80)
         elif not (ws[0] == "call" and ws[1].endswith("Iterator::map") and ws[2][0] == F(mdv, "witness_signals") and ws[2][1][0] == "closure"):
             ok, why = False, "second component is %s, specification metadata.witness_signals mapped to usize" % sh(ws, 160)
@@ -595,7 +597,7 @@ def check_evaluate(ctx, fb):
         vn = [k for k, d in gnode.items() if d == sel[0][1]][0]
         arms.setdefault(vn, []).append((p, pushes[0][3]))
         for s in subterms(pushes[0][3]):
-            if s[0] == "phi" and s[3] == "values":
+            if s[0] == "phi" and isinstance(s[4], tuple) and s[4] and (s[4][0] == "vecnew" or (s[4][0] == "call" and re.search(r"Vec::<T>::(new|with_capacity)$", s[4][1]))):
                 vals = s
     if vals is None:
         vals = ("phi", it.path, 0, "values", None)
@@ -623,15 +625,17 @@ def check_evaluate(ctx, fb):
     why = "expected one output-loop body, found %d" % len(second)
     if len(second) == 1 and len(rets) == 1:
         b = second[0]
-        out = carried_value(it, b, "out")
         rv = eng.value_of(rets[0].store, rets[0].ret)
+        out = carried_of(b, rv) if rv[0] == "phi" else None
+        if out is None:
+            out = ("?",)
         o = norm_loopvars(out)
         why = "out becomes %s" % sh(o, 300)
         if o[0] == "with" and o[2][0] == "idx":
             i = o[2][1]
             val = o[3]
-            ok = i[0] == "i" and cint(i[1]) == 0 and i[2] == ("len", P(3)) and val[0] == "idx" and val[2] == ("idx", P(3), i) and val[1][0] == "phi" and val[1][3] == "values" \
-                and rv[0] == "phi" and rv[3] == "out"
+            ok = i[0] == "i" and cint(i[1]) == 0 and i[2] == ("len", P(3)) and val[0] == "idx" and val[2] == ("idx", P(3), i) and val[1][0] == "phi" and val[1] == vals \
+                and rv[0] == "phi"
             init = rv[4] if rv[0] == "phi" else None
             if ok and not (init and init[0] == "call" and init[1] == "std::vec::from_elem" and init[2][1] == ("len", P(3))):
                 ok, why = False, "output vector is initialised as %s, specification len(outputs) elements" % sh(init, 100)
